@@ -182,7 +182,10 @@ fn key_for(f: &Value, o: &Obs) -> String {
 pub fn replay(args: &[String]) {
     let mut rep = Report::new("flow");
     let mut out = std::io::BufWriter::new(std::fs::File::create(&args[1]).unwrap());
-    let cases = tlc_lines(&args[0], "REPLAY");
+    // every behaviour is replayed; the observation trace (judged again by Trace_Flow) keeps every
+    // `keep`-th one when the bound is very large
+    let keep: u64 = args.get(2).map(|s| s.parse().unwrap()).unwrap_or(1);
+    crate::wire::tlc_lines_chunked(&args[0], "REPLAY", 50_000, |cases| {
     let observations = par_map(&cases, |case| observe(&case["f"]));
     for (case, o) in cases.iter().zip(observations) {
         let f = &case["f"];
@@ -195,7 +198,9 @@ pub fn replay(args: &[String]) {
         if rep.evaluations % 3001 == 1 {
             rep.sample(json!({"argv": o.argv, "expected": if want_err { json!("error") } else { case["v"].clone() }}));
         }
-        writeln!(out, "{}", event(f, &o)).unwrap();
+        if rep.evaluations % keep == 0 {
+            writeln!(out, "{}", event(f, &o)).unwrap();
+        }
         let kind = o.out["kind"].as_str().unwrap();
         let good = if want_err { kind == "err" } else {
             let mut want_v = case["v"].clone();
@@ -212,6 +217,7 @@ pub fn replay(args: &[String]) {
                                                   "observed": o.out, "hash": o.hash, "hash_contract_ok": o.hash_ok}));
         }
     }
+    });
     out.flush().unwrap();
     rep.print();
 }
